@@ -1,5 +1,6 @@
 /- C11 — snapshot location is a pure function of test file, test name and options. -/
 import GoSnaps.Path
+import GoSnaps.Generated.Funcs
 namespace GoSnaps.C11
 
 /-- the location depends on nothing but the Config, the calling test file, the test name and the
@@ -27,6 +28,19 @@ theorem path_spec (c : Cfg) (caller tName : Text) (sa : Bool) :
       fpJoin [if fpIsAbs c.snapsDir then c.snapsDir else fpJoin [fpDir caller, c.snapsDir],
               constructFilename c caller tName sa] := by
   unfold snapshotPath; rfl
+
+/-- **Tie by proof**: `Generated.Funcs.constructFilename` is a transliteration of the Go function
+`constructFilename` regenerated from snaps/snapshot.go on every run (tools/extract/funcs.go); the
+hand-written model definition used everywhere else is EQUAL to it.  A change of the Go function
+changes the left-hand side and this theorem has to be re-proved. -/
+theorem constructFilename_tied (c : Cfg) (caller tName : Text) (sa : Bool) :
+    Generated.Funcs.constructFilename c caller tName sa = GoSnaps.constructFilename c caller tName sa := by
+  have h1 : Generated.go_snapsExt = Generated.snapsExt := by decide
+  have h2 : Generated.saReplaceNew = [95] := by decide
+  have h3 : Generated.saSuffix = [95, 37, 100] := by decide
+  have h4 : slash = 47 := by decide
+  unfold Generated.Funcs.constructFilename GoSnaps.constructFilename
+  cases sa <;> by_cases h : c.filename = [] <;> simp [Id.run, h, h1, h2, h3, h4, pure]
 
 theorem consts_ok : Generated.snapsExt = [46, 115, 110, 97, 112] ∧ Generated.saSuffix = [95, 37, 100] ∧
     Generated.saReplaceNew = [95] ∧ Generated.saReplaceOld = [47] ∧
